@@ -97,6 +97,59 @@ def run(tier, v):
     for f in agg["fails"]:
         v.violation(classify(f), {"file": f["code"], "class": f["class"], "detail": f["detail"], "expected": f["expected"], "got": f["got"]},
                     replay_files={"case.rs": f["code"]})
+    # order independence: a directive (or its absence) in one file must not leak into the next file parsed by the same process
+    oi_cases = []
+    oi_exp = []
+    for li in range(len(LINES)):
+        for ind in (0, 1):
+            for style in (False, True):
+                for bi in (0, 1):
+                    ci, code, exp, _ = next(build([((li,), bi, 0, 0, 0, style, ind, 0)]))
+                    oi_cases.append((ci, code))
+                    oi_exp.append(exp)
+    import multiprocessing
+    with multiprocessing.Pool(vh.NCPU) as p2:
+        bad = vh.order_independence(oi_cases, p2)
+    v.count(len(oi_cases) ** 2)
+    v.subspace("order independence in-process: every ordered pair (A, B) of %d single-directive-line files: entries for B right after A == "
+               "entries for B in a fresh process" % len(oi_cases), len(oi_cases) ** 2)
+    for a_idx, b_idx, want, got in bad[:200]:
+        v.violation("result-depends-on-previously-parsed-file", {"previous_file": oi_cases[a_idx][1], "file": oi_cases[b_idx][1], "alone": repr(want)[:300],
+                                                                 "after_previous": repr(got)[:300]},
+                    replay_files={"previous.rs": oi_cases[a_idx][1], "case.rs": oi_cases[b_idx][1]})
+    # ... and through the CLI: two-file trees in both orders for every pair of equally long directive / non-directive lines
+    import cli as _cli
+    import os as _os
+    import shutil as _sh
+    from vcommon import scratch_dir as _sd
+    work = _sd("c14pairs")
+    npairs = 0
+    by_len = {}
+    for i, (c, e) in enumerate(zip(oi_cases, oi_exp)):
+        by_len.setdefault((c[0], len(c[1].encode())), []).append(i)
+    for (ci, _l), idxs in sorted(by_len.items()):
+        for a in idxs:
+            for b in idxs:
+                if a == b:
+                    continue
+                proj = _os.path.join(work, "p%d" % npairs)
+                npairs += 1
+                _cli.write_tree(proj, {"src/a.rs": oi_cases[a][1], "src/b.rs": oi_cases[b][1],
+                                       "Breadlog.yaml": _cli.config_yaml("./src", structured=(ci % 2 == 1), use_cache=False)})
+                r = _cli.run_breadlog(_os.path.join(proj, "Breadlog.yaml"), check=True, cwd=work, tmpdir=work, timeout=30)
+                rep = _cli.Report(r.stdout)
+                for name, k in (("a.rs", a), ("b.rs", b)):
+                    want = sum(1 for e in oi_exp[k] if e[0] == "N" or (e[0] == "S" and e[2] is None))
+                    got = sum(1 for f, _, _ in rep.missing if _os.path.basename(f) == name)
+                    if want != got:
+                        v.violation("result-depends-on-previously-parsed-file:cli", {"tree": {"a.rs": oi_cases[a][1], "b.rs": oi_cases[b][1]}, "file": name,
+                                                                                     "expected_missing": want, "reported_missing": got},
+                                    replay_files={"proj/src/a.rs": oi_cases[a][1], "proj/src/b.rs": oi_cases[b][1],
+                                                  "proj/Breadlog.yaml": _cli.config_yaml("./src", structured=(ci % 2 == 1), use_cache=False)},
+                                    replay_cmd="/verif/.build/repo/release/breadlog -c proj/Breadlog.yaml --check")
+                _sh.rmtree(proj, ignore_errors=True)
+    v.count(npairs)
+    v.subspace("order independence through --check: two-file trees, every ordered pair of equally long single-directive-line files", npairs)
     tuples = [t for t in space("quick") if len(t[0]) <= 1 and t[4] == 0]
     nb, nf = clibind.bind(tuples, lambda t: next(build([t])), v)
     v.subspace("CLI pass over the sequences of length <= 1 (LF): --check report and edit diff equal the in-process entries", nb)
